@@ -101,6 +101,7 @@ func init() {
 				{Scenario: "c12_conc", Params: mustJSON(struct{}{}), Bound: b - 1, Shards: 8, Note: "transient end (node 0) and final end (node 1) concurrently with each other and with events on a third vBucket"},
 			}
 			out = append(out, Instance{Scenario: "c12_afterrebalance", Params: mustJSON(AfterRebParams{CloseFault: true}), Bound: 0, Shards: 8, Note: "a close-stream request of the rebalance fails (lost reply / dead connection): the sessions after it obey the stop rule"})
+			out = append(out, Instance{Scenario: "c12_afterrebalance", Params: mustJSON(AfterRebParams{ReopenPending: true}), Bound: 0, Shards: 4, Note: "dynamic membership: a re-open retry that sleeps through a whole (immediate) rebalance gives up when it wakes"})
 			out = append(out, Instance{Scenario: "c12_afterrebalance", Params: mustJSON(AfterRebParams{OldServer: true}), Bound: 1, Shards: 8, Note: "server below 5.5.0 (serial close): the end of the last vBucket against the tail of Close(), all single deviations"})
 			out = append(out, Instance{Scenario: "c12_afterrebalance", Params: mustJSON(AfterRebParams{OldServer: true, CloseFault: true}), Bound: 0, Shards: 8, Note: "serial close with a failing close-stream request: ends in the next session are still processed"})
 			out = append(out, Instance{Scenario: "c12_afterrebalance", Params: mustJSON(struct{}{}), Bound: 1, Shards: 8, Note: "the stop rule in the sessions after 1..2 real rebalances"})
@@ -611,6 +612,9 @@ func init() {
 type AfterRebParams struct {
 	OldServer  bool `json:"old_server"`  // below 5.5.0: streams are closed one at a time, END is not announced by the server
 	CloseFault bool `json:"close_fault"` // one close-stream request of the first rebalance fails
+	// ReopenPending: dynamic membership (immediate re-open). A vBucket ended transiently and its first re-open
+	// attempt failed: the retry is sleeping (1 s) when the first rebalance starts - and is over long before it wakes
+	ReopenPending bool `json:"reopen_pending"`
 }
 
 // c12_afterrebalance: the "stops on its own iff every assigned vBucket ended for good" rule in the sessions
@@ -627,12 +631,25 @@ func init() {
 			if p.OldServer {
 				o.Version = &couchbase.Version{Major: 5, Minor: 0, Patch: 1}
 			}
+			if p.ReopenPending {
+				o.MembershipType = "dynamic"
+			}
 			c := NewCluster(&o)
 			e := NewEnv(c, o)
 			e.Cons.AutoAck = true
+			if p.ReopenPending {
+				publishInfo(e, 1, 1)
+				vrt.Sleep(1)
+			}
 			e.Stream.Open()
 			c.WaitIdle()
 			nreb := 1 + vrt.Choose(2, true, "rebalances")
+			if p.ReopenPending {
+				pvb := uint16(vrt.Choose(3, true, "vbucket-with-a-pending-re-open"))
+				c.Vb[pvb].Opens = append(c.Vb[pvb].Opens, gocbcore.SimOpen{Kind: "err", Err: gocbcore.ErrTemporaryFailure})
+				c.EndStream(pvb, gocbcore.ErrDCPStreamTooSlow)
+				vrt.Sleep(200 * time.Millisecond) // the first attempt has failed, the retry sleeps
+			}
 			if p.CloseFault {
 				// one close-stream request of the FIRST rebalance fails: rejected, or the connection is gone
 				fvb := uint16(vrt.Choose(3, true, "close-fault-vb"))
@@ -659,7 +676,14 @@ func init() {
 				// (schedule window: the END(closed) notifications of the rebalance's own close may be processed
 				// before or after the observers stop forwarding ends)
 				vrt.Window(true)
+				if p.ReopenPending {
+					publishInfo(e, 1, 1)
+					vrt.Sleep(1)
+				}
 				e.Stream.Rebalance()
+				if p.ReopenPending {
+					vrt.Sleep(8 * time.Second) // the sleeping retry wakes up (and, if it carries on, runs out of attempts)
+				}
 				if p.CloseFault {
 					vrt.Sleep(70 * time.Second) // a lost reply runs into the request's one-minute time-out
 				}
